@@ -131,7 +131,7 @@ func c17Text(rng *core.RNG, kind string, n int) []uint16 {
 			}
 			u = append(u, c)
 		case "astral":
-			if rng.Intn(3) == 0 && len(u)+2 <= n {
+			if (rng.Intn(3) == 0 || len(u)%1024 == 1023 || len(u)%1024 == 1022) && len(u)+2 <= n {
 				cp := 0x10000 + rng.Intn(0xFFFFF)
 				cp -= 0x10000
 				u = append(u, uint16(0xD800+cp>>10), uint16(0xDC00+cp&0x3ff))
